@@ -68,6 +68,10 @@ IMPORTS = [
     ('import all', 'a float = {x1} m\na = {x2} m\nb int = {k1}\ncopy {?*}', {'copy.a': ('v.x2', 'm'), 'copy.b': 'v.k1'}, ['a', 'b', 'copy.a', 'copy.b']),
     ('imported node keeps its options', 'src\n  w float = {x1} m\n    = {x1} m\n    = {x2} m\ndst {?src.w}\ndst.w = {x2} m', {'dst.w': ('v.x2', 'm')}, ['src.w', 'dst.w']),
     ('import then modify the copy only', 'src\n  w float = {x1} m\ndst {?src.*}\ndst.w = {x2} cm', {'src.w': ('v.x1', 'm'), 'dst.w': ('v.x2 / 100', 'm')}, ['src.w', 'dst.w']),
+    ('descendant names repeat the text of the prefix', 'box\n  toolbox\n    lid int = {k1}\n  sandbox\n    box.depth float = {x1} m\n  width int = {k2}\nshelf {?box.*}',
+     {'shelf.toolbox.lid': 'v.k1', 'shelf.sandbox.box.depth': ('v.x1', 'm'), 'shelf.width': 'v.k2'},
+     ['box.toolbox.lid', 'box.sandbox.box.depth', 'box.width', 'shelf.toolbox.lid', 'shelf.sandbox.box.depth', 'shelf.width']),
+    ('nested prefix repeated in the path', 'a\n  a\n    a int = {k1}\n    b int = {k2}\nq {?a.a.*}\nr {?a.a.a}', {'q.a': 'v.k1', 'q.b': 'v.k2', 'r.a': 'v.k1'}, ['a.a.a', 'a.a.b', 'q.a', 'q.b', 'r.a']),
     ('import of a subtree with deeper levels', 'r\n  a\n    b float = {x1} s\n    b = {x2} ms\n    c\n      d int = {k1}\nq {?r.a.*}', {'q.b': ('v.x2 / 1000', 's'), 'q.c.d': 'v.k1'}, ['r.a.b', 'r.a.c.d', 'q.b', 'q.c.d']),
 ]
 IMP_SRC = '''
